@@ -75,6 +75,7 @@ func init() {
 		Rules: append(append(writerRules("W1", "W2", "W3", "W5", "W7", "W8", "W9", "PATH-WAIT", "W6"), readerRules("R1", "R2", "R3", "R4", "R5", "R6")...),
 			RuleDef{Name: "ERR-1", What: "no error returned by a call in package bgzf is dropped (exemptions named)", Floor: 40, Run: ruleNoDroppedError([]string{"bgzf"}, errExempt)},
 			RuleDef{Name: "PATH-NEXTBLOCK", What: "a read-ahead result (error included) is reported only for the block whose base was expected", Floor: 1, Run: ruleNextBlock},
+			RuleDef{Name: "CUR-SEEKOFF", What: "a failed underlying Seek leaves the recorded offset where the stream still is (added after a blind second seed round)", Floor: 1, Run: ruleSeekOff},
 			RuleDef{Name: "LOCK-2", What: "the writer's error latch and the reader's cache field are accessed under their mutex (Close after wg.Wait exempt, structurally re-checked)", Floor: 8,
 				Run: func(c *Ctx, r *Rep, tier string) {
 					newLockAnalysis(c, []string{"bgzf"}).ruleGuarded(r, "LOCK-2", buildLockCfg(c, "bgzf"))
